@@ -43,7 +43,7 @@ def body(run: Run, replay):
                 run.violation("mkusetmask: base set %r %s in %r" % (b, "is" if b in members[a] else "is not", nm),
                               {"name": nm, "base": b}, {"fn": "mkusetmask"})
     maskd = n2p.mkusetmask()
-    layouts = ("make_uset", "addgrid", "spoints")
+    layouts = ("make_uset", "addgrid", "spoints", "addgrid6")
     nsample = 0
     for assign, table in res.tagged("USET"):
         K = len(assign)
@@ -51,16 +51,23 @@ def body(run: Run, replay):
             if quick and (hash((tuple(assign), layout)) % 3 != 0):
                 continue
             if layout == "make_uset":
-                mult = [3, 3, 1]
+                rowslots = [0, 0, 0, 1, 1, 1, 2]
                 dof = [[10, d] for d in range(1, 7)] + [[20, 0]]
                 nasset = [assign[0]] * 3 + [assign[1]] * 3 + [assign[2]]
                 uset = n2p.make_uset(dof, nasset)
             elif layout == "addgrid":
-                mult = [3, 3, 6]
+                rowslots = [0, 0, 0, 1, 1, 1] + [2] * 6
                 uset = n2p.addgrid(None, 10, assign[0] * 3 + assign[1] * 3, 0, [0.0, 0.0, 0.0], 0)
                 uset = n2p.addgrid(uset, 20, assign[2], 0, [1.0, 0.0, 0.0], 0)
+            elif layout == "addgrid6":
+                # per-DOF set strings in which every DOF's letter differs from its neighbours' (whenever the slots differ),
+                # once as a single string and once inside a list of per-grid specifications
+                rowslots = [0, 1, 2, 1, 0, 2] + [2, 0, 1, 0, 2, 1] + [1, 2, 0, 2, 1, 0]
+                s6 = ["".join(assign[i] for i in rowslots[k:k + 6]) for k in (0, 6, 12)]
+                uset = n2p.addgrid(None, 10, s6[0], 0, [0.0, 0.0, 0.0], 0)
+                uset = n2p.addgrid(uset, [20, 30], s6[1:], 0, [[1.0, 0.0, 0.0], [0.0, 2.0, 0.0]], 0)
             else:
-                mult = [1, 1, 1]
+                rowslots = [0, 1, 2]
                 uset = n2p.make_uset([[1, 0], [2, 0], [3, 0]], list(assign))
             for a, major in enumerate(names):
                 for b, minor in enumerate(names):
@@ -80,9 +87,7 @@ def body(run: Run, replay):
                             ok = refused
                         else:
                             in_major = [i for i in range(K) if maskd[assign[i]] & n2p.mkusetmask(major)]
-                            e = []
-                            for k, i in enumerate(in_major):
-                                e += [exp[k]] * mult[i]
+                            e = [exp[in_major.index(i)] for i in rowslots if i in in_major]
                             ok = (not refused) and got == e
                         if not ok:
                             run.violation("mksetpv(%r, %r) on layout %s: expected %s" % (major, minor, layout, "refusal" if exp == REFUSE2 else exp),
